@@ -160,6 +160,8 @@ type Hook struct {
 	cancelDS  int // cancel at the k-th datastore access (0 = never)
 	cancelBS  int // cancel at the k-th blockstore access (0 = never)
 	cancel    context.CancelFunc
+	fired     bool // the armed cancellation has happened
+	dsAtFire  int  // completed datastore accesses when it happened
 	recording bool
 	log       []Write
 }
@@ -170,12 +172,23 @@ func (h *Hook) Arm(cancelDS, cancelBS int, cancel context.CancelFunc) {
 	defer h.mu.Unlock()
 	h.dsCalls, h.bsCalls = 0, 0
 	h.cancelDS, h.cancelBS, h.cancel = cancelDS, cancelBS, cancel
+	h.fired, h.dsAtFire = false, 0
 }
 
 func (h *Hook) Disarm() {
 	h.mu.Lock()
 	defer h.mu.Unlock()
 	h.cancelDS, h.cancelBS, h.cancel = 0, 0, nil
+}
+
+// CancelPoint reports whether the cancellation armed by the last Arm has fired and, if so, how
+// many pinner-datastore accesses had *completed* before the context was cancelled (the access
+// at which a "ds" cancellation fires is not counted: the context is cancelled before the
+// inner store is asked).
+func (h *Hook) CancelPoint() (fired bool, dsBefore int) {
+	h.mu.Lock()
+	defer h.mu.Unlock()
+	return h.fired, h.dsAtFire
 }
 
 // Calls returns the access counts since the last Arm.
@@ -206,6 +219,9 @@ func (h *Hook) tickDS() {
 	h.dsCalls++
 	fire := h.cancel != nil && h.cancelDS > 0 && h.dsCalls == h.cancelDS
 	c := h.cancel
+	if fire {
+		h.fired, h.dsAtFire = true, h.dsCalls-1
+	}
 	h.mu.Unlock()
 	if fire {
 		c()
@@ -217,6 +233,9 @@ func (h *Hook) tickBS() {
 	h.bsCalls++
 	fire := h.cancel != nil && h.cancelBS > 0 && h.bsCalls == h.cancelBS
 	c := h.cancel
+	if fire {
+		h.fired, h.dsAtFire = true, h.dsCalls
+	}
 	h.mu.Unlock()
 	if fire {
 		c()
